@@ -421,8 +421,12 @@ func init() {
 		if tier == "thorough" {
 			// depth 3 with per-call limits (the limit window is recomputed per sequence); the package-level
 			// configurations keep depth 2 over all limits 0..64 and get depth 3 for five limits
-			perCall.Depth = 3
-			perCall.Alpha = []*AlphaCfg{a, tail, tail}
+			pc3 := *perCall
+			pc3.Docs = docs[1:2]
+			pc3.Depth = 3
+			pc3.Alpha = []*AlphaCfg{a, tail, tail}
+			pc3.Rule = "v5 per-call option, DEPTH 3 on one document (operation ; copy ; copy), limits around every total"
+			extra = append(extra, &pc3)
 			var few []r69.Options
 			for _, l := range []int64{0, 5, 13, 21, 40} {
 				few = append(few, r69.Options{Neg: true, EscapeHTML: true, Limit: l})
@@ -433,7 +437,7 @@ func init() {
 			d3.Alpha = []*AlphaCfg{sa, tail, tail}
 			l3.Alpha = []*AlphaCfg{legacy.Alpha[0], legacy.Alpha[1], legacy.Alpha[1]}
 			d3.Rule, l3.Rule = "v5 package default, DEPTH 3, limits {0,5,13,21,40}", "legacy package global, DEPTH 3, limits {0,5,13,21,40}"
-			extra = []*seqProp{&d3, &l3}
+			extra = append(extra, &d3, &l3)
 		}
 		// copy ; replace the whole document ; copy - the running total must survive a root replacement
 		rootVals := parseAll([]string{`{"q":[]}`, `[[]]`})
